@@ -68,9 +68,10 @@ package protocol
 
 //@ func Read
 //@   requires r != nil
-//@   modifies consumed(r)
+//@   modifies consumed(r), eof(r)
 //@   ensures  [total]   $r0 != nil || $r1 != nil
-//@   ensures  [framed]  $r1 == nil ==> consumed(r) == old(consumed(r)) + 4 + L(r, old(consumed(r)))
+//@   ensures  [framed]  $r1 == nil && !eof(r) ==> consumed(r) == old(consumed(r)) + 4 + L(r, old(consumed(r)))
+//@   ensures  [framed-eof] $r1 == nil && eof(r) ==> consumed(r) == old(consumed(r)) + 4 + L(r, old(consumed(r)))
 //@   ensures  [within]  consumed(r) <= old(consumed(r)) + 4 + L(r, old(consumed(r)))
 //@   ensures  [cap]     $r1 == nil ==> L(r, old(consumed(r))) <= 1<<20
 //@   alloc    [bounded] 32*L(r, old(consumed(r))) + 65536
